@@ -1,3 +1,13 @@
 //! Independent reference codecs and protocol automata, written from the RFCs.
 //! This crate shares no code and no tables with hyperium/h3 (it does not depend on it).
+pub mod datagram;
+pub mod fields;
+pub mod frames;
+pub mod h3auto;
+pub mod huffman;
+pub mod huffman_table;
+pub mod qint;
+pub mod qpack;
+pub mod qstr;
+pub mod settings;
 pub mod varint;
